@@ -51,7 +51,7 @@ func C12(cfg Cfg) int {
 		}
 		for _, kind := range kinds {
 			ids := idSet(kind, n)
-			c, err := rig.NewCluster(rig.ClusterOpts{Dir: cfg.Dir(fmt.Sprintf("c12-%d-%s", n, kind)), IDs: ids})
+			c, err := rig.NewCluster(rig.ClusterOpts{DistinctGenPass: true, Dir: cfg.Dir(fmt.Sprintf("c12-%d-%s", n, kind)), IDs: ids})
 			if err != nil {
 				run.Inconclusive("cannot build cluster: " + err.Error())
 				return run.Finish()
@@ -185,7 +185,7 @@ func C12(cfg Cfg) int {
 func c12Orders(run *evid.Run, cfg Cfg, orders map[string]bool) {
 	r := cfg.Rand("c12-orders")
 	ids := []uint64{1, 2, 3}
-	c, err := rig.NewCluster(rig.ClusterOpts{Dir: cfg.Dir("c12-orders"), IDs: ids})
+	c, err := rig.NewCluster(rig.ClusterOpts{DistinctGenPass: true, Dir: cfg.Dir("c12-orders"), IDs: ids})
 	if err != nil {
 		run.Inconclusive(err.Error())
 		return
@@ -243,7 +243,7 @@ func c12Retry(run *evid.Run, cfg Cfg) {
 		n := 3 + round%2
 		t := n/2 + 1
 		ids := idSet("small", n)
-		c, err := rig.NewCluster(rig.ClusterOpts{Dir: cfg.Dir(fmt.Sprintf("c12-retry-%d", round)), IDs: ids})
+		c, err := rig.NewCluster(rig.ClusterOpts{DistinctGenPass: true, Dir: cfg.Dir(fmt.Sprintf("c12-retry-%d", round)), IDs: ids})
 		if err != nil {
 			run.Inconclusive(err.Error())
 			return
@@ -434,7 +434,7 @@ func c12Wire(run *evid.Run, cfg Cfg) {
 // participant - none may be lost to another generation's write of the wallet.
 func c12Concurrent(run *evid.Run, cfg Cfg) {
 	ids := idSet("small", 3)
-	c, err := rig.NewCluster(rig.ClusterOpts{Dir: cfg.Dir("c12-concurrent"), IDs: ids})
+	c, err := rig.NewCluster(rig.ClusterOpts{DistinctGenPass: true, Dir: cfg.Dir("c12-concurrent"), IDs: ids})
 	if err != nil {
 		run.Inconclusive(err.Error())
 		return
